@@ -114,8 +114,9 @@ Groups ==
                  \cup (IF Rich THEN {<<[var |-> FALSE, n |-> "r"], [var |-> TRUE, n |-> "key", sh |-> sh]>> :
                                        sh \in Pick({x \in RefShapes(fr.app) : x.wrap = "" /\ ~x.opt /\ Len(x.ref) = 2})}
                        ELSE {})},
-         (IF Rich THEN {[k |-> "event", name |-> "Ev", pos |-> NoPos]} ELSE {}),
-         (IF Rich THEN {[k |-> "sub", src |-> o, name |-> "Ev", pos |-> NoPos] : o \in Apps \ {fr.app}} ELSE {}),
+         (IF Rich THEN {[k |-> "event", name |-> "Ev", tags |-> tg, attrs |-> <<>>, pos |-> NoPos] : tg \in Pick(TagSets)} ELSE {}),
+         (IF Rich THEN {[k |-> "sub", src |-> o, name |-> "Ev", tags |-> tg, attrs |-> <<>>, pos |-> NoPos] :
+                          o \in Apps \ {fr.app}, tg \in Pick(TagSets)} ELSE {}),
          (IF Rich THEN {[k |-> "anno", name |-> "note", val |-> "some text"]} ELSE {}),
          {[k |-> "end"]} }
     [] fr.k = "type" ->
@@ -243,16 +244,47 @@ Touches(b) == {<<f[2], f[3]>> : f \in {g \in Replay(EmptyState, b).model : g[1] 
 Commute(b1, b2) == Touches(b1) \cap Touches(b2) = {}
 
 
-\* C04: assignments of the top-level blocks to files 0 (root), 1, 2.  The compiler walks the root
-\* first, then its imports, so the effective block order is by file; blocks that append to the same
-\* statement list must keep their relative order (everything else merges by name).
-OrderOK(bs, plan) == \A i, j \in DOMAIN bs : (i < j /\ ~Commute(bs[i], bs[j])) => plan[i] <= plan[j]
+\* C04: assignments of the top-level blocks to up to four files, 0 being the root, in an import graph.  The compiler
+\* walks the files in depth-first pre-order of the import statements, each file once (FileOrder), so the effective
+\* block order is by position in that order; blocks that append to the same statement list must keep their
+\* relative order (everything else merges by name).
+\* an import graph is a sequence indexed by file + 1 of the files each one imports, in the order written
+Graphs(n) ==
+  IF n = 1 THEN {<< <<>> >>}
+  ELSE IF n = 2 THEN {<< <<1>>, <<>> >>, << <<1>>, <<0>> >>}
+  ELSE IF n = 3 THEN {<< <<1, 2>>, <<>>, <<>> >>,          \* star
+                      << <<1>>, <<2>>, <<>> >>,            \* chain
+                      << <<2, 1>>, <<>>, <<>> >>,          \* star, imports written in the other order
+                      << <<1, 2>>, <<2>>, <<0>> >>}        \* a file reached twice, and a cycle back to the root
+  ELSE {<< <<1, 2, 3>>, <<>>, <<>>, <<>> >>,               \* star
+        << <<1>>, <<2>>, <<3>>, <<>> >>,                   \* chain
+        << <<1, 3>>, <<2>>, <<>>, <<>> >>,                 \* a nested import before a later sibling
+        << <<1, 2>>, <<3>>, <<3>>, <<>> >>,                \* diamond
+        << <<3, 1>>, <<2>>, <<3>>, <<>> >>,                \* written out of index order, one file reached twice
+        << <<1>>, <<2, 3>>, <<>>, <<1>> >>}                \* fork below the root, with a cycle
+RECURSIVE Visit(_, _, _)
+Visit(g, todo, acc) ==
+  IF todo = <<>> THEN acc
+  ELSE LET f == Head(todo) IN
+       IF \E i \in DOMAIN acc : acc[i] = f THEN Visit(g, Tail(todo), acc)
+       ELSE Visit(g, g[f + 1] \o Tail(todo), Append(acc, f))
+FileOrder(g) == Visit(g, <<0>>, <<>>)
+PosIn(order, f) == CHOOSE i \in DOMAIN order : order[i] = f
+
+OrderOK(bs, files, order) ==
+  \A i, j \in DOMAIN bs : (i < j /\ ~Commute(bs[i], bs[j])) => PosIn(order, files[i]) <= PosIn(order, files[j])
+\* a random assignment, its files renumbered 0..n-1 (0 is the root whether or not it holds a block), in a random graph
+PlansOf(bs, p) ==
+  LET used == {p[i] : i \in DOMAIN p} \cup {0}
+      rank(f) == Cardinality({g \in used : g < f})
+      files == [i \in DOMAIN p |-> rank(p[i])]
+  IN {[files |-> files, imports |-> g, order |-> FileOrder(g)] : g \in {RandomElement(Graphs(Cardinality(used)))}}
 Plans ==
   IF ~WithPlans THEN <<>>
   ELSE LET bs == Blocks(prog, <<>>, 0)
-           F == [DOMAIN bs -> 0..2]
-           cand == {RandomElement(F) : k \in 1..6}
-       IN SetToSeq({p \in cand : OrderOK(bs, p)})
+           F == [DOMAIN bs -> 0..3]
+           cand == UNION {PlansOf(bs, RandomElement(F)) : k \in 1..8}
+       IN SetToSeq({pl \in cand : OrderOK(bs, pl.files, pl.order)})
 
 GenInit == st = EmptyState /\ prog = <<>> /\ done = FALSE
 
